@@ -635,7 +635,13 @@ def gen_C11(tier, seed, unit, nunits):
             pass
     return out
 
-import gen_ext_ops, gen_ext_from, gen_ext_bits
+import gen_ext_ops, gen_ext_from, gen_ext_bits, gen_ext_serde
+def gen_C10x(tier, seed, unit, nunits):
+    """C10 requests + the serde representation through serde_json / serde_cbor (tools/gen_ext_serde.py)"""
+    out = dict(gen_C10(tier, seed, unit, nunits))
+    for b, lines in gen_ext_serde.gen(tier, seed, unit, nunits).items():
+        out.setdefault(b, []).extend(lines)
+    return out
 def gen_C05x(tier, seed, unit, nunits):
     """C05 requests + the From / LossyFrom<Fixed> for f32|f64 impls and lossy_into (tools/gen_ext_from.py)"""
     out = dict(gen_C05(tier, seed, unit, nunits))
@@ -672,14 +678,14 @@ PROPS = {
     'C18': dict(lean_modules=['SfxProps.C18', 'SfxProps.C18Entry'], bins=['wrap', 'conv', 'text'], profiles=['chk', 'rel'], gen=gen_C18, thorough_all_fracs=True,
                 rule='programs of 1..12 Wrapping operations (every impl variant is a distinct step kind); de-duplicated per unit; '
                      'non-trivial = some operand magnitude > 1; evaluations counts program x profile executions'),
-    'C10': dict(lean_modules=['SfxProps.C10'], bins=['codec'], profiles=['chk', 'rel'], gen=gen_C10, thorough_all_fracs=True,
+    'C10': dict(lean_modules=['SfxProps.C10', 'SfxProps.C10Serde'], bins=['codec'], profiles=['chk', 'rel'], gen=gen_C10x, thorough_all_fracs=True,
                 rule='bit patterns (8-bit exhaustive), their encodings, short/long/random byte strings; de-duplicated per unit; '
                      'non-trivial = operand magnitude > 1 or a byte-string argument',
-                assumptions=['serde form {bits}: not exercised (no serde_json in the offline registry); little-endian target for *_ne_bytes']),
+                assumptions=['serde: exercised through serde_json 1.0.151 / serde_cbor 0.11.2 with default features only; little-endian target for *_ne_bytes']),
     'C03': dict(lean_modules=['SfxProps.C03'], bins=['conv'], profiles=['rel'], gen=gen_C03),
     'C04': dict(lean_modules=['SfxProps.C04', 'SfxProps.C04Prim'], bins=['conv'], profiles=['chk', 'rel'], gen=gen_C04x),
     'C05': dict(lean_modules=['SfxProps.C05'], bins=['conv'], profiles=['chk', 'rel'], gen=gen_C05x),
-    'C12': dict(lean_modules=['SfxProps.C12', 'SfxProps.C12Tan'], bins=['math'], profiles=['chk', 'rel'], gen=gen_C12),
+    'C12': dict(lean_modules=['SfxProps.C12', 'SfxProps.C12Tan', 'SfxProps.C12Pairs'], bins=['math'], profiles=['chk', 'rel'], gen=gen_C12),
     'C13': dict(lean_modules=['SfxProps.C13'], bins=['math'], profiles=['rel'], gen=gen_C13, oracle=True),
     'C14': dict(lean_modules=['SfxProps.C14'], bins=['math'], profiles=['rel'], gen=gen_C14, oracle=True),
     'C15': dict(lean_modules=['SfxProps.C15', 'SfxProps.C15Acc'], bins=['math'], profiles=['rel'], gen=gen_C15, oracle=True),
